@@ -211,13 +211,16 @@ func VH_C06_rerun() {
 	m := &bMon{}
 	bConfig(m)
 	vAssume(m.n >= 1)
+	// the pooled path multiplies the schedules of both runs: its batches stay at nconc items
+	nconc := vParam("nconc", 3)
+	vAssume(m.c <= 0 || m.n <= nconc)
 	m.stop = vNondet[bool]("stop")
 	b := bNode(m, c06Exec(m))
 	_, err1 := Run(m.ctx, b, NewSharedStore())
 	n1 := m.n
 	// second run: fresh observations, its own size (the prep function reads m.n when it is called)
 	n2 := vNondet[int]("n2")
-	vAssume(0 <= n2 && n2 <= vParam("n", 3))
+	vAssume(0 <= n2 && n2 <= vParam("n", 3) && (m.c <= 0 || n2 <= nconc))
 	n2 = vConcrete(n2)
 	*m = bMon{n: n2, c: m.c, stop: m.stop, ctx: m.ctx, firstFail: -1, cancelAt: -1, checkSettled: true}
 	if !m.stop {
